@@ -5,10 +5,11 @@ ROOT = os.path.dirname(os.path.dirname(os.path.abspath(__file__)))
 props = [json.loads(l) for l in open(os.path.join(ROOT, "properties.jsonl"))]
 hooks = [l.strip() for l in open(os.path.join(ROOT, "meta", "hook_commits.txt")) if l.strip()] if os.path.exists(os.path.join(ROOT, "meta", "hook_commits.txt")) else []
 checks, na = [], []
+ready = set(open(os.path.join(ROOT, "meta", "ready.txt")).read().split())
 for p in props:
     pid = p["id"]
     mp = os.path.join(ROOT, "meta", pid + ".json")
-    if os.path.exists(mp) and os.path.exists(os.path.join(ROOT, "harness", "src", "bin", pid.lower() + ".rs")):
+    if pid in ready and os.path.exists(mp) and os.path.exists(os.path.join(ROOT, "harness", "src", "bin", pid.lower() + ".rs")):
         m = json.load(open(mp))
         if m.get("not_applicable"):
             na.append({"property_id": pid, "reason": m["not_applicable"]})
